@@ -63,8 +63,7 @@ func applyAggregationsToResult(aggs *structs.QueryAggregators, segmentSearchReco
 
 	usedByTimechart := aggs.UsedByTimechart()
 	if (aggs != nil && aggs.GroupByRequest != nil) || usedByTimechart {
-		cname, ok := checkIfGrpColsPresent(aggs.GroupByRequest, sharedReader.MultiColReaders[0],
-			allSearchResults)
+		cname, ok := checkIfGrpColsPresent(aggs.GroupByRequest, sharedReader.MultiColReaders[0])
 		if !ok && !usedByTimechart {
 			log.Errorf("qid=%v, applyAggregationsToResult: cname: %v was not present", qid, cname)
 			return fmt.Errorf("qid=%v, applyAggregationsToResult: cname: %v was not present", qid,
@@ -1292,16 +1291,11 @@ func ApplyAgileTree(str *segread.AgileTreeReader, aggs *structs.QueryAggregators
 	}
 }
 
+// Only the group-by columns are required: a segment without a measure column still
+// contributes its records to the groups (the measure has no value for them).
 func checkIfGrpColsPresent(grpReq *structs.GroupByRequest,
-	mcsr *segread.MultiColSegmentReader, allSearchResults *segresults.SearchResults) (string, bool) {
-	measureInfo, _ := allSearchResults.BlockResults.GetConvertedMeasureInfo()
+	mcsr *segread.MultiColSegmentReader) (string, bool) {
 	for _, cname := range grpReq.GroupByColumns {
-		if !mcsr.IsColPresent(cname) {
-			return cname, false
-		}
-	}
-
-	for cname := range measureInfo {
 		if !mcsr.IsColPresent(cname) {
 			return cname, false
 		}
